@@ -310,9 +310,9 @@ fn main() {
     let big = a.thorough() || a.search;
 
     // ---- (a)-(c): solver-derived streams -------------------------------------------------
-    let mut sets: Vec<(u32, u32, usize)> = vec![(48, 5, 2), (72, 5, 1), (96, 5, 1), (64, 3, 2), (40, 4, 2), (32, 3, 3), (80, 4, 1)];
+    let mut sets: Vec<(u32, u32, usize)> = vec![(48, 5, 2), (72, 5, 1), (96, 5, 1), (64, 3, 2), (40, 4, 2), (32, 3, 3), (80, 4, 1), (120, 7, 1)];
     if big {
-        sets = vec![(48, 5, 6), (72, 5, 4), (96, 5, 3), (64, 3, 4), (40, 4, 5), (32, 3, 5), (56, 6, 4), (96, 7, 1), (80, 4, 2), (88, 7, 1), (72, 3, 1), (104, 7, 1), (72, 8, 1)];
+        sets = vec![(48, 5, 6), (72, 5, 4), (96, 5, 3), (64, 3, 4), (40, 4, 5), (32, 3, 5), (56, 6, 4), (96, 7, 1), (80, 4, 2), (88, 7, 1), (72, 3, 1), (104, 7, 1), (72, 8, 1), (120, 7, 2)];
     }
     for (n, k, reps) in sets {
         let mut full_mut_done = false;
@@ -347,7 +347,7 @@ fn main() {
                 let small = k <= 4;
                 let all = first && k <= 3;
                 let all_soln = first && (small || (n, k) == (48, 5) || (big && k <= 5));
-                let den = if k >= 6 { 40 } else if first { if k >= 5 { 16 } else { 8 } } else { 32 };
+                let den = if k >= 7 && !big { 100 } else if k >= 6 { 40 } else if first { if k >= 5 { 16 } else { 8 } } else { 32 };
                 let nbits = soln.len() * 8;
                 for bit in 0..nbits {
                     if all_soln || rng.chance(1, den) {
@@ -393,11 +393,11 @@ fn main() {
                         for j in 0..sz / 2 {
                             m.swap(b * sz + j, b * sz + sz / 2 + j);
                         }
-                        if (first && k <= 5) || r >= k - 1 || rng.chance(1, 4) {
+                        if (first && k <= 5) || r >= k - 1 || rng.chance(1, if k >= 7 && !big { 12 } else { 4 }) {
                             cx.run("swap_siblings", &inst, &encode(w, &m));
                         }
                         // copy the left half over the right half and vice versa
-                        if all || rng.chance(1, 6) {
+                        if all || rng.chance(1, if k >= 7 && !big { 24 } else { 6 }) {
                             let mut m = idx.clone();
                             for j in 0..sz / 2 {
                                 m[b * sz + sz / 2 + j] = m[b * sz + j];
@@ -411,7 +411,7 @@ fn main() {
                         }
                     }
                 }
-                for _ in 0..(if first { 12 } else { 4 }) {
+                for _ in 0..(if k >= 7 && !big { 3 } else if first { 12 } else { 4 }) {
                     // swap two subtrees that are not siblings
                     let r = rng.below(k as u64) as usize;
                     let sz = 1usize << r;
@@ -479,7 +479,7 @@ fn main() {
                     cx.run("random_len", &inst, &rng.bytes(len));
                 }
             }
-            for _ in 0..(if big { 30 } else { 8 }) {
+            for _ in 0..(if big { 30 } else if k >= 7 { 3 } else { 8 }) {
                 cx.run("random_right_len", &inst, &rng.bytes(l));
                 // random distinct indices arranged so that every ordering check passes
                 let mut m: Vec<u32> = vec![];
@@ -577,6 +577,45 @@ fn main() {
         cx.run("nonce_bit", &i2, &soln);
         cx.run("random_right_len", &inst, &rng.bytes(soln.len()));
         cx.run("zeros", &inst, &vec![0u8; soln.len()]);
+    }
+
+    // byte-aligned index widths (c + 1 = 16 and 24, where unpacking only inserts the padding bytes):
+    // a pair of leaves colliding on the first segment, found by a birthday search, placed first in
+    // either order: [j, i, ..] must fail the ordering check, [i, j, ..] the next collision check.
+    for (n, k) in [(120u32, 7u32), (184, 7)] {
+        let inst = Inst { n, k, input: rng.bytes(5), nonce: rng.bytes(32) };
+        let (c, w) = (inst.c(), inst.c() + 1);
+        let mut seen: std::collections::HashMap<u64, u32> = std::collections::HashMap::new();
+        let mut pair = None;
+        for i in 0..(1u32 << w).min(1 << 15) {
+            let x = inst.x(i);
+            let mut top: u64 = 0;
+            for b in &x[..4] {
+                top = (top << 8) | *b as u64;
+            }
+            let key = top >> (32 - c);
+            if let Some(j) = seen.get(&key) {
+                pair = Some((*j, i));
+                break;
+            }
+            seen.insert(key, i);
+        }
+        if let Some((i, j)) = pair {
+            // the other indices: distinct, increasing, above both
+            let sz = 1usize << k;
+            let mut rest: Vec<u32> = (0..sz as u32 - 2).map(|t| j + 1 + 3 * t).collect();
+            let mut m = vec![j, i];
+            m.append(&mut rest.clone());
+            cx.run("aligned_first_pair_swapped", &inst, &encode(w, &m));
+            let mut m = vec![i, j];
+            m.append(&mut rest);
+            cx.run("aligned_first_pair", &inst, &encode(w, &m));
+            let m = vec![i; sz];
+            cx.run("aligned_first_pair", &inst, &encode(w, &m));
+        }
+        for _ in 0..2 {
+            cx.run("random_right_len", &inst, &rng.bytes(inst.soln_len()));
+        }
     }
 
     // one index per digest (n > 256): the only such parameter pair with a short solution is (264, 10)
